@@ -213,6 +213,7 @@ func helperStress(a []string) {
 
 func realKernel(res *corr.Result, tier string, seed int64, scratch string) {
 	dupRelease(res, scratch)
+	nonRegularTrunc(res, scratch)
 	procs, gor, iters := 4, 4, 2000
 	if tier == "thorough" {
 		procs, gor, iters = 6, 6, 12000
@@ -786,4 +787,65 @@ func straceCheck(res *corr.Result, model, scratch string) {
 	res.Distribution["strace-order-checks"] = checked
 	res.Extra["strace"] = map[string]any{"checked": checked, "failed_to_run": failed,
 		"what": "openat/flock/ftruncate/close order of the unmodified package for each public entry point and each access mode × {O_CREATE,O_TRUNC,O_APPEND,O_EXCL} subset, file present and absent, equals the model's program"}
+}
+
+
+// nonRegularTrunc: O_TRUNC on a file that cannot be truncated (a FIFO: ftruncate fails with EINVAL, and the package
+// deliberately ignores that error for non-regular files) must still return the file LOCKED: "a caller that obtains a
+// write-locked file holds it exclusively until Close".  The lock is probed from a second open file description
+// with a non-blocking flock.  (seeded C06-m5: the truncate helper unlocked before deciding that the error is ignorable)
+func nonRegularTrunc(res *corr.Result, scratch string) {
+	dir := filepath.Join(scratch, "fifo")
+	os.MkdirAll(dir, 0o777)
+	type opener struct {
+		name string
+		open func(path string) (*lockedfile.File, error)
+	}
+	openers := []opener{
+		{"OpenFile(O_RDWR|O_TRUNC)", func(p string) (*lockedfile.File, error) { return lockedfile.OpenFile(p, os.O_RDWR|os.O_TRUNC, 0) }},
+		{"OpenFile(O_RDWR|O_CREATE|O_TRUNC)", func(p string) (*lockedfile.File, error) {
+			return lockedfile.OpenFile(p, os.O_RDWR|os.O_CREATE|os.O_TRUNC, 0o666)
+		}},
+	}
+	for i, op := range openers {
+		path := filepath.Join(dir, fmt.Sprintf("pipe%d", i))
+		if err := syscall.Mkfifo(path, 0o666); err != nil {
+			res.Observations = append(res.Observations, "nonRegularTrunc: mkfifo unavailable: "+err.Error())
+			return
+		}
+		// keep a reader/writer end open so that no open blocks
+		keep, err := os.OpenFile(path, os.O_RDWR, 0)
+		if err != nil {
+			res.Observations = append(res.Observations, "nonRegularTrunc: cannot open the fifo: "+err.Error())
+			return
+		}
+		f, err := op.open(path)
+		res.OracleChecked["C06"]++
+		if err != nil {
+			// refusing is acceptable (no file handed out); nothing to check
+			keep.Close()
+			continue
+		}
+		probe, perr := os.OpenFile(path, os.O_RDWR, 0)
+		if perr == nil {
+			lerr := syscall.Flock(int(probe.Fd()), syscall.LOCK_EX|syscall.LOCK_NB)
+			if lerr == nil {
+				syscall.Flock(int(probe.Fd()), syscall.LOCK_UN)
+				res.Violate("C06", "real-kernel non-regular-trunc "+op.name+" on a FIFO", "the returned file does not hold its lock: another open file description obtained LOCK_EX while it was open", "not-held-at-return")
+			}
+			probe.Close()
+		}
+		f.Close()
+		// after Close the lock must be free again
+		probe2, perr2 := os.OpenFile(path, os.O_RDWR, 0)
+		if perr2 == nil {
+			if lerr := syscall.Flock(int(probe2.Fd()), syscall.LOCK_EX|syscall.LOCK_NB); lerr != nil {
+				res.Violate("C06", "real-kernel non-regular-trunc "+op.name+" on a FIFO", "the lock is still held after Close: "+lerr.Error(), "held-after-close")
+			} else {
+				syscall.Flock(int(probe2.Fd()), syscall.LOCK_UN)
+			}
+			probe2.Close()
+		}
+		keep.Close()
+	}
 }
